@@ -107,7 +107,65 @@ func c05Gen(rng *rand.Rand, m *model.Model, keys []string) []string {
 func checkC05(r *verdict.Run) {
 	r.Rule = "random sequences of set commands over 4 set keys with members a..f + wrong-typed/missing keys; algebra commands draw 1-4 operands with replacement (repeated, missing, wrong-typed operands), STORE destinations are an operand half of the time; " +
 		"oracle per step: reply = exact mathematical result (multiset compare; SRANDMEMBER by predicate), every operand and the destination compared with the model afterwards (operands unchanged, destination replaced or removed when empty), failed commands inert. " +
+		"plus churn sequences of 600-1800 steps over three long-lived sets and 31 members (SADD/SREM cycles, repeated add/remove of one member, algebra and STORE forms in between) so that table growth, shrinking and ageing precede the algebra commands. " +
 		"distinct = (command+options, prior key class, outcome class)"
 	runDiffSequences(r, tierPick(r, 300, 6000), func(rng *rand.Rand) int { return 30 + rng.Intn(50) },
 		[]string{"s0", "s1", "s2", "s3", "ws", "wl", "km"}, [][]string{{"SET", "ws", "str"}, {"RPUSH", "wl", "a"}, {"SADD", "s0", "a", "b", "c"}, {"SADD", "s1", "b", "c", "d"}}, c05Gen)
+	// churn: few long sequences (the structure's history matters, not the number of fresh starts)
+	runDiffSequencesN(r, tierPick(r, 32, 320), 2, 10000, func(rng *rand.Rand) int { return 600 + rng.Intn(1200) },
+		[]string{"c0", "c1", "c2", "cd"}, [][]string{{"SADD", "c0", "apple", "banana", "cherry", "date", "elderberry", "fig", "grape", "honeydew", "kiwi"}, {"SADD", "c1", "banana", "kiwi", "m1"}}, c05ChurnGen)
+}
+
+// c05Churn: long-lived sets over a larger member universe with add/remove churn, so that the sets' backing
+// tables grow, shrink and age before the algebra commands run (defects that need a structure's history, not one
+// command, to show). Never DEL: the same objects live through the whole sequence.
+var c05ChurnMembers = []string{"apple", "banana", "cherry", "date", "elderberry", "fig", "grape", "honeydew", "kiwi", "lemon", "mango", "nectarine", "orange", "papaya", "quince",
+	"raspberry", "strawberry", "tangerine", "ugli", "vanilla", "watermelon", "xigua", "yam", "zucchini", "m1", "m2", "m3", "m4", "m5", "m6"}
+
+func c05ChurnGen(rng *rand.Rand, m *model.Model, keys []string) []string {
+	sets := []string{"c0", "c1", "c2"}
+	k := pick(rng, sets)
+	// each key draws from a prefix of the universe of a different size, so that small, medium and large tables coexist
+	span := map[string]int{"c0": 9, "c1": 14, "c2": len(c05ChurnMembers)}[k]
+	mem := func() string { return c05ChurnMembers[rng.Intn(span)] }
+	switch x := rng.Intn(40); {
+	case x < 13:
+		a := []string{"SADD", k}
+		for i := 0; i < 1+rng.Intn(3)*rng.Intn(3); i++ {
+			a = append(a, mem())
+		}
+		return a
+	case x < 25:
+		a := []string{"SREM", k}
+		for i := 0; i < 1+rng.Intn(2)*rng.Intn(3); i++ {
+			a = append(a, mem())
+		}
+		return a
+	case x < 27:
+		// the same member added and removed repeatedly: removal bookkeeping without size change
+		return []string{pick(rng, []string{"SADD", "SREM"}), k, "churn"}
+	case x < 32:
+		a := []string{pick(rng, []string{"SINTER", "SUNION", "SDIFF"})}
+		for _, i := range rng.Perm(3)[:2+rng.Intn(2)] {
+			a = append(a, sets[i])
+		}
+		return a
+	case x < 34:
+		a := []string{pick(rng, []string{"SINTERSTORE", "SUNIONSTORE", "SDIFFSTORE"}), pick(rng, []string{"cd", "cd", "c2"})}
+		for _, i := range rng.Perm(3)[:2+rng.Intn(2)] {
+			a = append(a, sets[i])
+		}
+		return a
+	case x < 35:
+		return []string{"SINTERCARD", "2", sets[rng.Intn(3)], sets[rng.Intn(3)]}
+	case x < 36:
+		return []string{"SMEMBERS", k}
+	case x < 37:
+		return []string{"SMOVE", k, pick(rng, sets), mem()}
+	case x < 38:
+		return []string{"SMISMEMBER", k, mem(), mem(), mem()}
+	case x < 39:
+		return []string{"COPY", k, "cd", "REPLACE"}
+	}
+	return []string{"SCARD", k}
 }
